@@ -3,7 +3,8 @@ Bounded stand-in for C17: batch conversion tools never touch their inputs and is
 
 run_batch(tier, seed) builds real directory trees under /verif/.work/c17/<case>/ from the file kinds
 {valid 1.0 XML/JSON/YAML, valid 1.1 XML/JSON/YAML, empty, non-XML text, malformed XML, XML of another
-vocabulary} (bad kinds also with .json / .yaml names) and runs
+vocabulary} (bad kinds also with .json / .yaml names; also binary data, non-UTF-8 text and XML whose bytes
+contradict its declared encoding) and runs
   * odml.scripts.odml_convert.main(argv)       (recursive on/off x explicit/implicit output directory)
   * odml.scripts.odml_to_rdf.main(argv)        (the same)
   * FormatConverter.convert_dir / .convert     (every target format but trix, recursive on/off,
@@ -19,7 +20,17 @@ Contract (from the property statement):
   bad-file-skipped        (command line tools) a bad file has no output
   bad-file-reported       (command line tools) the printed report names the bad file in a line that says
                           error / skip / warning / fail / cannot / invalid
-The expected content of every file is generated here (independent printers for 1.0 and 1.1 XML/JSON/YAML).
+The expected content of every file is generated here (independent printers for 1.0 and 1.1 XML/JSON/YAML);
+content = document author / date / version + the Section forest with Property names, dtypes, units, values.
+
+Stored form of the valid files (a dimension of its own, see XML_FORMS / DICT_FORMS / REPERTOIRES): XML as UTF-8
+with / without byte order mark, with / without declaration, declaration without encoding, ISO-8859-1 (also
+lower case / single quotes), windows-1252, UTF-16 LE / BE with byte order mark, US-ASCII with character
+references, CRLF line ends, xml-stylesheet + comment prolog; JSON / YAML as raw UTF-8, ASCII with escapes, CRLF,
+YAML with byte order mark; each with matching declaration and crossed with the character repertoires it can
+carry (ASCII, Latin-1, windows-1252 only, BMP, astral) in author, Section / Property names, values and units.
+Files in these forms are run alone, next to every kind of file that has to be skipped (both creation orders,
+nested), all together, and in random mixtures; file names with non-ASCII characters are a further name style.
 """
 from __future__ import annotations
 
@@ -824,7 +835,12 @@ def run_batch(tier, seed):
              '(quick: pairs and random trees get two of the four configurations each, round robin); trees for the format converter: valid files of the '
              'source kind of the target format in flat / nested layouts x 12 target formats x recursive x '
              'explicit/implicit x convert_dir/convert(args), plus mixed directories with bad files and input '
-             'directory names with regex metacharacters; class key = (layout key, tool, configuration)',
+             'directory names with regex metacharacters; stored forms: every valid kind x every stored form (13 XML: '
+             'encoding / byte order mark / declaration / prolog / line ends; 3-4 JSON / YAML) x every character repertoire it '
+             'can carry (quick: one per form) alone, each XML form next to each of 7 bad kinds in both creation orders '
+             '(quick: one bad kind per form), all forms together with all 23 bad kinds in 3 nestings, seeded random '
+             'mixtures, for both command line tools and (valid files only) every target of the format converter; file '
+             'names with dots / spaces / non-ASCII characters; class key = (layout key, tool, configuration)',
         exhaustive=False)
     ck = Checker(col)
     rnd = random.Random(seed)
